@@ -27,6 +27,14 @@ for pid in ("C14", "C15", "C16"):
             for r in extra:
                 r = dict(r); r["bounds"] = "transport lemma shared with C03: " + r["bounds"]
                 cfg[k].append(r)
+        # ... and on both receive loops handing over payloads that later traffic does not disturb (C13's lemmas)
+        c13 = json.load(open("C13.json"))
+        for k in ("quick", "thorough"):
+            srv = [r for r in c13[k] if r["harness"] == "vxH13Srv"][:1]
+            cl = [r for r in c13[k] if r["harness"] == "vxH13Clnt"][:2]
+            for r in srv + cl:
+                r = dict(r); r["bounds"] = "receive-loop lemma shared with C13: " + r["bounds"]
+                cfg[k].append(r)
     json.dump(cfg, open(pid + ".json", "w"), indent=1)
 # C03's "no reply for a tag that is no longer outstanding" also covers replies that arrive after the Rflush of
 # their request: one flush workload of C07 is part of the C03 check
